@@ -184,7 +184,7 @@ def make_case(ctx, obj, blank=False):
     nm = "[%s]" % ";".join("(%s,%d)" % (H.cs(c), ctx.handle(c)) for c in cn)
     head = "LCase %s %s %s" % (C.cbool(not blank), enc, nm)
     qstr = ["(%s,%s)" % (H.cs(n), enc_outcome(ctx, o, paths)) for n, o in qs]
-    SPLIT[len(SPLIT)] = (head, qstr)
+    SPLIT["last"] = (head, qstr)
     return "%s [%s]" % (head, ";".join(qstr)), qs
 
 
@@ -276,7 +276,7 @@ def expected_shortcuts(ctx, obj):
     if cn == "SONRS" and d.get("fi") is not None:
         out.append(("org", "is", d["fi"].__dict__.get("org")))
         out.append(("fid", "is", d["fi"].__dict__.get("fid")))
-    if {"curtype", "cursym", "currate"} <= class_level(ctx, type(obj)):
+    if has_origcurrency_mixin(type(obj)):
         cur = d.get("currency") if d.get("currency") is not None else d.get("origcurrency")
         out.append(("curtype", "eq", None if cur is None else type(cur).__name__))
         out.append(("cursym", "is", None if cur is None else cur.__dict__.get("cursym")))
@@ -298,8 +298,23 @@ def expected_shortcuts(ctx, obj):
 
 
 def short(v):
-    s = repr(v)
+    try:
+        s = repr(v)
+    except Exception as e:      # repr of (a bound method of) a blank instance reads unset attributes
+        s = "<%s object; repr raises %s>" % (type(v).__name__, type(e).__name__)
     return s if len(s) < 160 else s[:157] + "..."
+
+
+def owner_of(cls, name):
+    """the class of the MRO whose body defines the name (the call site a failure key names): Origcurrency for curtype on INVBUY"""
+    for b in cls.__mro__:
+        if name in b.__dict__:
+            return b.__name__
+    return cls.__name__
+
+
+def has_origcurrency_mixin(cls):
+    return any(b.__name__ == "Origcurrency" for b in cls.__mro__)
 
 
 class Oracle:
@@ -367,8 +382,21 @@ class Oracle:
                 continue
             path, d = definers[0]
             t = type(d).spec.get(name)
-            if t is None or is_list_type(ctx, t):
-                continue        # a shortcut or a repeated child of the descendant: no "value stored there"
+            if t is None:
+                # a shortcut of the only descendant defining the name (BUYSTOCK(...).curtype -> INVBUY.curtype): the explicit path from that descendant
+                for n2, kind, want in expected_shortcuts(ctx, d):
+                    if n2 != name or kind == "list":
+                        continue
+                    out = read(obj, name)
+                    n_checked += 1
+                    if not (out[0] == "ok" and ((kind == "is" and out[1] is want) or (kind == "eq" and out[1] == want))):
+                        got = "raises %s" % out[1] if out[0] != "ok" else "returns %s" % short(out[1])
+                        self.fail("flat-shortcut:%s.%s:%s" % (owner_of(type(d), name), name, "raises-" + out[1] if out[0] != "ok" else "differs-from-path"),
+                                  "%s.%s %s; the only descendant defining it (%s at .%s) gives %s by the explicit path"
+                                  % (type(obj).__name__, name, got, type(d).__name__, ".".join(path), short(want)), obj, check="flat", name=name, path=list(path))
+                continue
+            if is_list_type(ctx, t):
+                continue        # a repeated child of the descendant: no "value stored there"
             stored = None if isinstance(t, ctx.Types.Unsupported) else d.__dict__.get(name)
             out = read(obj, name)
             n_checked += 1
@@ -408,7 +436,7 @@ class Oracle:
                 detail = "returns %d object(s) %s, the path walk finds %d: %s" % (len(out[1]), short([type(g).__name__ for g in out[1]]), len(want), short([type(w).__name__ for w in want]))
             else:
                 what, detail = "differs-from-path", "returns %s, the path gives %s" % (short(out[1]), short(want))
-            self.fail("shortcut:%s.%s:%s" % (cn, name, what), "%s.%s %s" % (cn, name, detail), obj, check="shortcut", name=name)
+            self.fail("shortcut:%s.%s:%s" % (owner_of(type(obj), name), name, what), "%s.%s %s" % (cn, name, detail), obj, check="shortcut", name=name)
         return n_checked
 
     # ---- copy, deepcopy, pickle reproduce an equal model
@@ -476,6 +504,43 @@ def presence_variants(ctx, cls, rng, budget):
     return out
 
 
+def currency_variants(ctx, rng):
+    """every class carrying the Origcurrency mixin with ORIGCURRENCY, with CURRENCY and with neither; and every class holding such a class as a
+    non-repeated sub-aggregate (BUYSTOCK -> INVBUY ...), wrapped around each of the three"""
+    T = ctx.Types
+    mix = [c for c in ctx.concrete if has_origcurrency_mixin(c)]
+    out = []
+
+    def three(cls):
+        res = []
+        for which in ("origcurrency", "currency", None):
+            for _ in range(4):
+                if which is None:
+                    args, kw = H.gen_args(ctx, cls, rng, 1, full=0.4)
+                    kw.pop("currency", None); kw.pop("origcurrency", None)
+                    o = build(cls, args, kw)
+                else:
+                    o = H.gen_instance(ctx, cls, rng, depth=1, full=0.4, force=which)
+                    if o is not None and (o.__dict__.get(which) is None or o.__dict__.get("currency" if which == "origcurrency" else "origcurrency") is not None):
+                        o = None
+                if o is not None:
+                    res.append((which, o)); break
+        return res
+    for cls in mix:
+        out.extend(o for _, o in three(cls))
+    for w in ctx.concrete:
+        for k, t in w.spec.items():
+            if isinstance(t, T.SubAggregate) and not is_list_type(ctx, t) and t.__type__ in mix:
+                for which, inner in three(t.__type__):
+                    for _ in range(4):
+                        args, kw = H.gen_args(ctx, w, rng, 1, full=0.3, force=k)
+                        kw[k] = inner
+                        o = build(w, args, kw)
+                        if o is not None:
+                            out.append(o); break
+    return out
+
+
 def gen_msgset(ctx, cls, rng, n):
     T = ctx.Types
     la = [t.__type__ for t in cls.spec.values() if isinstance(t, T.ListAggregate)]
@@ -531,11 +596,19 @@ def run(rep, tier, rng):
     items, meta = [], []
 
     def take(obj, kind, blank=False):
+        try:
+            take1(obj, kind, blank)
+        except Exception as e:
+            msg = "harness error on a %s%s instance: %r" % ("blank " if blank else "", obj.__name__ if blank else type(obj).__name__, e)
+            if len([b for b in rep.broken if b.startswith("harness error on")]) < 5:
+                rep.broken.append(msg)
+
+    def take1(obj, kind, blank=False):
         """one instance: property predicate on the implementation + one correspondence case"""
         if blank:
             orc.misses(obj, blank=True)
             term, qs = make_case(ctx, obj, blank=True)
-            items.append(term); meta.append({"class": obj.__name__, "blank": True, "queries": [(n, o[0] if o[0] != "ok" else short(o[1])) for n, o in qs][:12]})
+            items.append(term); SPLIT[len(items) - 1] = SPLIT["last"]; meta.append({"class": obj.__name__, "blank": True, "queries": [(n, o[0] if o[0] != "ok" else short(o[1])) for n, o in qs][:12]})
             rep.count(("blank", obj.__name__), nontrivial=True, kind=kind)
             return
         orc.misses(obj)
@@ -543,7 +616,7 @@ def run(rep, tier, rng):
         orc.copies(obj)
         term, qs = make_case(ctx, obj)            # plain names first, shortcuts last
         ns = orc.shortcuts(obj)
-        items.append(term)
+        items.append(term); SPLIT[len(items) - 1] = SPLIT["last"]
         meta.append({"class": type(obj).__name__, "instance": to_json_safe(ctx, obj), "queries": [(n, o[0] if o[0] != "ok" else short(o[1])) for n, o in qs if o[0] != "attr"][:40]})
         rep.count((type(obj).__name__, term), nontrivial=(nf + ns > 0 or len(descendants(ctx, obj)) > 1), kind=kind)
 
@@ -558,6 +631,10 @@ def run(rep, tier, rng):
         for _ in range(rounds):
             for obj in presence_variants(ctx, cls, rng, budget):
                 take(obj, "presence-variant")
+    # the currency shortcuts: every mixin class (and every class wrapping one) with ORIGCURRENCY, with CURRENCY, with neither
+    for _ in range(3 if thorough else 1):
+        for obj in currency_variants(ctx, rng):
+            take(obj, "currency-variant")
     # message sets and whole OFX trees: wrappers of every kind, with and without (closing) statements, in random order
     n_ms = 80 if thorough else 8
     for cn in STMT_MSGSET_CLASSES + ["SECLISTMSGSRSV1"]:
